@@ -166,3 +166,9 @@ Section Arr.
   (* the single-process computation *)
   Definition single_process (f : Z -> V) (n : Z) : list V := map f (zrange 0 n).
 End Arr.
+
+(* ---- histories of calls on one object ---- *)
+(* _spatial_mp creates a FRESH Scheduler (init) for every query / projection call.  The alternative, a second
+   call whose workers iterate the Scheduler object left behind by a finished call: the shared counters keep
+   their values, the new workers start from the top of __iter__, nothing has been handed out or written yet *)
+Definition recycle (s : state) : state := mk_state (ndata s) (start s) None (fun _ => PIdle) [] [].
